@@ -65,6 +65,82 @@ def scenarios(tier, seed):
     return gen.number(scs, "C05_")
 
 
+def _richardson_job(job):
+    """One real call of a Richardson wrapper with the call of every basis integrator observed (spec/RichardsonStep.tla): which span did
+    each level integrate in the wrapper's last attempt, and which step did the wrapper report?"""
+    import desolver as de
+    from desolver.integrators import generate_richardson_integrator
+    base, lev, h, prob, tol = job
+    out = {"base": base, "levels": lev, "h": h, "prob": prob, "tol": tol, "ran": False, "raised": False, "gap": [], "longer": False, "sameSign": True, "shortened": False}
+    try:
+        if prob == "pendulum":
+            f = lambda t, y: np.array([y[1], -100.0 * np.sin(y[0])])      # noqa
+            y0 = np.array([1.0, 0.0])
+        else:
+            f = lambda t, y: np.array([-50.0 * y[0] + np.sin(3 * t), y[0] - y[1] ** 3])      # noqa
+            y0 = np.array([0.5, 1.0])
+        cls = generate_richardson_integrator(de.available_methods(False)[base], richardson_iter=lev)
+        integ = cls((2,), dtype=np.float64, rtol=tol, atol=tol)
+        logs = []
+        for m, b in enumerate(integ.basis_integrators):
+            orig = type(b).__call__
+
+            def call(self, rhs_, t, y, c, dt, _m=m, _o=orig):
+                res = _o(self, rhs_, t, y, c, dt)
+                logs.append((_m, dt, res[1][0]))
+                return res
+            b.__class__ = type("Observed" + type(b).__name__, (type(b),), {"__call__": call})
+        r = integ(de.DiffRHS(f), np.float64(0.0), y0, {}, np.float64(h))
+        dT = r[1][0]
+        attempts = []
+        for (m, req, ret) in logs:
+            if m == 0:
+                attempts.append({})
+            attempts[-1].setdefault(m, []).append((req, ret))
+        last = attempts[-1]
+        gaps = []
+        for m in sorted(last):
+            tot = sum((num.frac(x[1]) for x in last[m]), Fraction(0))
+            pieces = max(1, len(last[m]))
+            gaps.append(int(min(num.CAP, math.ceil(abs(tot - num.frac(dT)) / (Fraction(num.eps_of(np.dtype("float64"))) * pieces * max(Fraction(1, 10 ** 6), abs(num.frac(dT))))))))
+        out.update(ran=True, gap=gaps, longer=bool(abs(num.frac(dT)) > abs(Fraction(h))), sameSign=bool((float(dT) > 0) == (h > 0)),
+                   shortened=bool(abs(num.frac(last[0][0][1])) < abs(num.frac(last[0][0][0]))), attempts=len(attempts))
+    except de.exception_types.FailedToMeetTolerances as e:
+        out["raised"] = True        # the wrapper gave up on this step: nothing was accepted, nothing to observe
+        out["error"] = "FailedToMeetTolerances: %s" % str(e)[:80]
+    except Exception as e:     # noqa
+        out["error"] = "%s: %s" % (type(e).__name__, str(e)[:120])
+    return out
+
+
+def _richardson_phase(run):
+    thorough = run.tier == "thorough"
+    run.mc("RichardsonStep", workers=2)
+    if thorough:
+        core.model_check("RichardsonStep", "RichardsonStep_devSigned", expect_violation="AllLevelsIntegrateTheStepReported", workers=2)
+    jobs = []
+    for base, levs in (("RK45CK", (2, 3, 4)), ("DOPRI45", (3,)), ("RK87", (3,)), ("RadauIIA5", (2,)), ("RK4", (3,)), ("BackwardEuler", (3,))) + \
+            ((("RK108", (2, 3)), ("LobattoIIIC4", (2,)), ("AHE", (4,)), ("CrankNicolson", (3,))) if thorough else ()):
+        for lev in levs:
+            for h in (0.5, -0.5, 2.0, -2.0, 0.001, -0.001):
+                for prob in ("pendulum", "stiffish"):
+                    jobs.append((base, lev, h, prob, 1e-10 if base not in ("BackwardEuler", "AHE") else 1e-4))
+    obs = core.pool_map(_richardson_job, jobs)
+    for k, o in enumerate(obs):
+        o["id"] = k
+        run.evaluations += 1
+        if o.get("shortened"):
+            run.nontrivial.add(("richardson-shortened", o["base"], o["levels"], o["h"], o["prob"]))
+    run.notes["richardson_calls_with_a_shortened_first_level"] = sum(1 for o in obs if o.get("shortened"))
+    run.notes["richardson_calls_that_gave_up"] = sum(1 for o in obs if o.get("raised"))
+    v = run.judge("RichardsonJudge", {"cases": [{k: o[k] for k in ("id", "ran", "raised", "gap", "longer", "sameSign", "levels")} for o in obs]}, name="C05_richardson")
+    run.traces += len(obs)
+    for b in v["bad"]:
+        o = obs[b["id"]]
+        run.violation(b["clause"], "richardson(%s,%d) h=%s %s tol=%g" % (o["base"], o["levels"], o["h"], o["prob"], o["tol"]),
+                      {k: o.get(k) for k in ("gap", "longer", "sameSign", "shortened", "attempts", "error")}, replay=None)
+
+
 def _accuracy_job(job):
     case, m, tol, dt0 = job[:4]
     via_setters = len(job) > 4 and bool(job[4])
@@ -172,6 +248,8 @@ def check(run, replay=None):
         run.notes["traces_with_rejected_attempt"] = len(run.nontrivial)
         run.sample({"scenario": scs[0]})
         odecore.judge_traces(run, scs, traces, PREFIX)
+    if not replay:
+        _richardson_phase(run)
     if jobs:
         obs = core.pool_map(_accuracy_job, jobs)
         for k, o in enumerate(obs):
